@@ -101,7 +101,18 @@ func loadProgram(repo string) (*Verifier, error) {
 		if fn.Synthetic != "" && !strings.Contains(fn.Synthetic, "instance") {
 			continue
 		}
-		v.funcs[funcKey(fn)] = fn
+		key := funcKey(fn)
+		inRepo := fn.Pkg != nil && strings.HasPrefix(fn.Pkg.Pkg.Path(), "github.com/dlclark/regexp2")
+		if fn.Pkg == nil && fn.Origin() != nil && fn.Origin().Pkg != nil {
+			inRepo = strings.HasPrefix(fn.Origin().Pkg.Pkg.Path(), "github.com/dlclark/regexp2")
+		}
+		if old, dup := v.funcs[key]; dup {
+			oldRepo := old.Pkg != nil && strings.HasPrefix(old.Pkg.Pkg.Path(), "github.com/dlclark/regexp2")
+			if oldRepo && !inRepo {
+				continue // never let a standard-library function shadow a repository function of the same short name
+			}
+		}
+		v.funcs[key] = fn
 	}
 	cs, err := loadContractFiles(repo)
 	if err != nil {
@@ -120,6 +131,9 @@ func loadProgram(repo string) (*Verifier, error) {
 		}
 		for k, s := range lcs.Specs {
 			cs.Specs[k] = s
+		}
+		for k, g := range lcs.GhostFields {
+			cs.GhostFields[k] = g
 		}
 		cs.Axioms = append(cs.Axioms, lcs.Axioms...)
 		cs.Files = append(cs.Files, lcs.Files...)
@@ -167,7 +181,7 @@ func (v *Verifier) newFrame(fn *ssa.Function, con *Contract, top bool) *Frame {
 	return &Frame{v: v, ctx: v.ctx, fn: fn, con: con, top: top,
 		vals: map[ssa.Value]Val{}, reach: map[*ssa.BasicBlock]Term{}, out: map[*ssa.BasicBlock]*State{},
 		edgeCond: map[[2]*ssa.BasicBlock]Term{}, nonNil: map[Term]*ssa.BasicBlock{}, counters: map[string]int{},
-		touched: map[string]string{}, envBase: map[string]Val{}, canaryGoals: map[int][]Term{}}
+		touched: map[string]string{}, envBase: map[string]Val{}, canaryGoals: map[int][]Term{}, reachParts: map[*ssa.BasicBlock][]Term{}}
 }
 
 func (v *Verifier) autoInline(fn *ssa.Function) bool {
